@@ -8,6 +8,7 @@ from .. import gen as G
 from .. import universal as U
 
 ID = 'C14'
+TECHNIQUE = 'runtime monitoring: shift events (operators, NumPy shift functions) judged against exact x*2^n / arithmetic shift of the PRE snapshot; operand frame monitor'
 TITLE = 'shifts'
 RULE = ('events x<<n and x>>n under the three shifting modes: expand: result value = v*2^n resp. v/2^n exactly (compared as Fractions) with codes inside the '
         'result\'s own range; trunc/keep: format unchanged, x>>n = floor(code/2^n), x<<n = code*2^n when representable and otherwise any in-range code; '
